@@ -250,6 +250,8 @@ class C17(Prop):
                 F.append('create_drawdowns on the raw equity series (first value %s) differs from 1 - value / running maximum' % (c['curve'][0][1] * c.get('raw_scale', 1.0)))
             elif not ok(float(maxdd), dr['maxdd']) or (not kn and dur != dr['duration']):
                 F.append('create_drawdowns on the raw equity series: max %s / duration %s, definition %s / %s' % (dr['maxdd'], dr['duration'], float(maxdd), dur))
+        if a.get('two_objects', 'same') != 'same':
+            F.append('after a second JSONStatistics object was built for another curve, %s' % a['two_objects'])
         ru = a.get('reuse')
         if ru and ru[0] != 'same':
             F.append('statistics of a sub-period taken from an already analysed frame differ from those of the same equity values in a fresh frame: %s' % ru)
